@@ -30,6 +30,10 @@ type VT struct {
 	Inner *VT
 	Safe  bool
 	TName string
+	// Rep selects one of the Go representations of the term (int8 / int64 / named
+	// type / typed slice / nil slice ...).  The model does not see it: the
+	// properties speak of integers, floats, strings and lists, not of Go types.
+	Rep int
 }
 
 func vNil() VT                          { return VT{K: "nil"} }
@@ -147,6 +151,11 @@ type SString string
 
 func (s SString) String() string { return "S(" + string(s) + ")" }
 
+// NInt and NStr are named types without methods: the same integers and strings
+// under another Go type.
+type NInt int
+type NStr string
+
 // SInt is an int-kinded fmt.Stringer.
 type SInt int
 
@@ -244,22 +253,122 @@ func (v VT) Go() any {
 	case "bool":
 		return v.B
 	case "int":
+		switch {
+		case v.Rep == 1 && v.I >= math.MinInt8 && v.I <= math.MaxInt8:
+			return int8(v.I)
+		case v.Rep == 2 && v.I >= math.MinInt16 && v.I <= math.MaxInt16:
+			return int16(v.I)
+		case v.Rep == 3 && v.I >= math.MinInt32 && v.I <= math.MaxInt32:
+			return int32(v.I)
+		case v.Rep == 4:
+			return v.I
+		case v.Rep == 5:
+			return NInt(v.I)
+		}
 		return int(v.I)
 	case "uint":
+		switch {
+		case v.Rep == 1 && v.U <= math.MaxUint8:
+			return uint8(v.U)
+		case v.Rep == 2 && v.U <= math.MaxUint16:
+			return uint16(v.U)
+		case v.Rep == 3 && v.U <= math.MaxUint32:
+			return uint32(v.U)
+		case v.Rep == 4:
+			return v.U
+		}
 		return uint(v.U)
 	case "float":
+		if v.Rep == 1 && float64(float32(v.F)) == v.F {
+			return float32(v.F)
+		}
 		return v.F
 	case "str":
+		if v.Rep == 1 {
+			return NStr(v.S)
+		}
 		return v.S
 	case "list":
+		if v.Rep == 9 && len(v.Items) == 0 {
+			switch v.Elem {
+			case "int":
+				return []int(nil)
+			case "string":
+				return []string(nil)
+			case "float":
+				return []float64(nil)
+			case "any":
+				return []any(nil)
+			}
+		}
 		switch v.Elem {
+		case "value":
+			out := make([]*pongo2.Value, len(v.Items))
+			for i, it := range v.Items {
+				out[i] = it.Go().(*pongo2.Value)
+			}
+			return out
+		case "uint":
+			switch v.Rep {
+			case 1:
+				out := make([]uint8, len(v.Items))
+				for i, it := range v.Items {
+					out[i] = uint8(it.U)
+				}
+				return out
+			case 2:
+				out := make([]uint64, len(v.Items))
+				for i, it := range v.Items {
+					out[i] = it.U
+				}
+				return out
+			}
+			out := make([]uint, len(v.Items))
+			for i, it := range v.Items {
+				out[i] = uint(it.U)
+			}
+			return out
 		case "int":
+			switch v.Rep {
+			case 1:
+				out := make([]int64, len(v.Items))
+				for i, it := range v.Items {
+					out[i] = it.I
+				}
+				return out
+			case 2:
+				out := make([]NInt, len(v.Items))
+				for i, it := range v.Items {
+					out[i] = NInt(it.I)
+				}
+				return out
+			case 3:
+				out := make(sort.IntSlice, len(v.Items))
+				for i, it := range v.Items {
+					out[i] = int(it.I)
+				}
+				return out
+			}
 			out := make([]int, len(v.Items))
 			for i, it := range v.Items {
 				out[i] = int(it.I)
 			}
 			return out
 		case "string":
+			switch v.Rep {
+			case 1:
+				out := make([]NStr, len(v.Items))
+				for i, it := range v.Items {
+					out[i] = NStr(it.S)
+				}
+				return out
+			case 3:
+				out := make(sort.StringSlice, len(v.Items))
+				for i, it := range v.Items {
+					out[i] = it.S
+				}
+				return out
+			}
 			out := make([]string, len(v.Items))
 			for i, it := range v.Items {
 				out[i] = it.S
@@ -293,6 +402,9 @@ func (v VT) Go() any {
 		}
 		return a.Interface()
 	case "smap":
+		if v.Rep == 9 && len(v.Keys) == 0 {
+			return map[string]any(nil)
+		}
 		m := map[string]any{}
 		for i, k := range v.Keys {
 			m[k] = v.Items[i].Go()
@@ -323,11 +435,19 @@ func (v VT) Go() any {
 			s := v.Inner.Go().(VS1)
 			return &s
 		case "int":
+			if v.Inner.Rep != 0 {
+				iv := v.Inner.Go()
+				p := reflect.New(reflect.TypeOf(iv))
+				p.Elem().Set(reflect.ValueOf(iv))
+				return p.Interface()
+			}
 			i := int(v.Inner.I)
 			return &i
-		case "str":
-			s := v.Inner.S
-			return &s
+		case "str", "uint", "float", "bool", "stringer":
+			iv := v.Inner.Go()
+			p := reflect.New(reflect.TypeOf(iv))
+			p.Elem().Set(reflect.ValueOf(iv))
+			return p.Interface()
 		}
 		x := v.Inner.Go()
 		return &x
@@ -347,6 +467,75 @@ func (v VT) Go() any {
 		}
 	}
 	panic("go: unknown kind " + v.K)
+}
+
+// Vary returns the term with randomly chosen Go representations (the model's
+// term is unchanged).
+func (v VT) Vary(r *RNG) VT { return v.vary(r, true) }
+
+// vary: with types = false the Go type of lists stays (its name is visible when a list is printed).
+func (v VT) vary(r *RNG, types bool) VT {
+	out := v
+	if len(v.Items) > 0 {
+		out.Items = make([]VT, len(v.Items))
+		for i, it := range v.Items {
+			if v.K == "list" && v.Elem != "any" || v.K == "arr" {
+				out.Items[i] = it // typed containers fix the representation of their items
+			} else {
+				out.Items[i] = it.vary(r, types)
+			}
+		}
+	}
+	if v.Inner != nil {
+		in := v.Inner.vary(r, types)
+		out.Inner = &in
+	}
+	if r.Bool() {
+		return out
+	}
+	switch v.K {
+	case "int":
+		out.Rep = r.Intn(6)
+	case "uint":
+		out.Rep = r.Intn(5)
+	case "float", "str":
+		out.Rep = r.Intn(2)
+	case "list":
+		if len(v.Items) == 0 {
+			out.Rep = 9
+		} else if types {
+			out.Rep = r.Intn(4)
+		}
+	case "smap":
+		if len(v.Keys) == 0 {
+			out.Rep = 9
+		}
+	}
+	return out
+}
+
+// reps lists the non-canonical representation choices of a term (for the case description).
+func (v VT) reps(sb *strings.Builder) {
+	if v.Rep != 0 {
+		fmt.Fprintf(sb, "~%T", v.Go())
+	}
+	for _, it := range v.Items {
+		it.reps(sb)
+	}
+	if v.Inner != nil {
+		v.Inner.reps(sb)
+	}
+}
+
+// Varied returns the context with every value's representation varied.
+func (c CtxTerm) Varied(r *RNG) CtxTerm { return c.varied(r, true) }
+
+func (c CtxTerm) varied(r *RNG, types bool) CtxTerm {
+	out := CtxTerm{Names: c.Names, Vals: make([]VT, len(c.Vals))}
+	for i, v := range c.Vals {
+		out.Vals[i] = v.vary(r, types)
+	}
+	return out
 }
 
 // CtxTerm is an ordered context: names and terms.
@@ -370,7 +559,9 @@ func (c CtxTerm) Go() pongo2.Context {
 func (c CtxTerm) String() string {
 	parts := make([]string, len(c.Names))
 	for i, n := range c.Names {
-		parts[i] = n + "=" + c.Vals[i].Wire()
+		var sb strings.Builder
+		c.Vals[i].reps(&sb)
+		parts[i] = n + "=" + c.Vals[i].Wire() + sb.String()
 	}
 	sort.Strings(parts)
 	return strings.Join(parts, " ")
